@@ -105,3 +105,30 @@ Example order_can_matter :
   extend_models chain_schema ["FooBase"; "Bee"; "Uu"; "Ss"; "Foo"; "Container"]
   <> extend_models chain_schema ["Ss"; "Container"; "Foo"; "FooBase"; "Uu"; "Bee"].
 Proof. vm_compute. intro H. discriminate H. Qed.
+
+(* non-vacuity on the SHIPPED schemas (regenerated from the .cats files): both are fresh, every enumeration of their struct names is an
+   admissible order (here: declaration order and its reverse), their factory maps build and extend_models answers Ok -- the premises of
+   factory_map_spec, bind_spec, unaligned_sandwich, propagate_fuel_sufficient (order_ok gives incl); and the count members of the Symbol
+   transfer transaction have exactly one binder each (bind_unique_array: message_size -> message, mosaics_count -> mosaics).
+   (resolves / flat / carries are shown on example_schema above only: there is no boolean decider for them.) *)
+From Symv Require Import Gen.SchemaSc Gen.SchemaNc.
+Lemma fresh_of_forallb : forall ds,
+  forallb (fun d => match d with DStruct s => negb (s_requires_unaligned s) | _ => true end) ds = true -> fresh ds.
+Proof. intros ds H s Hs. rewrite forallb_forall in H. specialize (H _ Hs). cbn in H. destruct (s_requires_unaligned s); [discriminate|reflexivity]. Qed.
+
+Example shipped_premises :
+  fresh sc_schema /\ fresh nc_schema
+  /\ order_ok sc_schema (struct_names sc_schema) /\ order_ok nc_schema (rev (struct_names nc_schema))
+  /\ match build_factory_map sc_schema with Ok m => map fst m = first_occurrences (factory_types sc_schema) | _ => False end
+  /\ match extend_models sc_schema (struct_names sc_schema) with Ok (ps, M) => length ps = length (structs_of sc_schema) | _ => False end
+  /\ match extend_models nc_schema (rev (struct_names nc_schema)) with Ok (ps, M) => length ps = length (structs_of nc_schema) | _ => False end
+  /\ match lookup sc_schema "TransferTransactionV1" with
+     | Some (DStruct s) => spec_bound_candidates (s_fields s) 13 = [18%nat] /\ spec_bound_candidates (s_fields s) 14 = [17%nat]
+     | _ => False
+     end.
+Proof.
+  split; [apply fresh_of_forallb; vm_compute; reflexivity|]. split; [apply fresh_of_forallb; vm_compute; reflexivity|].
+  split; [intro x; reflexivity|]. split; [intro x; symmetry; apply in_rev|].
+  vm_compute. repeat split; reflexivity.
+Qed.
+Print Assumptions shipped_premises.
